@@ -67,6 +67,12 @@ func c13Desc(layout geom.Layout, flat []float64, via string) map[string]any {
 }
 
 // c13Check runs one hull computation and judges it.
+// an input buffer that lives as long as the worker process
+var (
+	c13Buf   [1024]float64
+	c13Calls int
+)
+
 func c13Check(c *fw.Ctx, layout geom.Layout, pts []ipt, via int, class string) {
 	stride := layout.Stride()
 	flat := make([]float64, 0, len(pts)*stride)
@@ -76,6 +82,15 @@ func c13Check(c *fw.Ctx, layout geom.Layout, pts []ipt, via int, class string) {
 			// unique ids in the extra ordinates make provenance observable
 			flat = append(flat, float64(1000*(k-1)+i))
 		}
+	}
+	// every other input sits in a buffer the caller keeps and refills for the next
+	// input: a hull that is built on the caller's memory instead of a copy changes
+	// when the buffer is refilled (the held hull of the previous case is re-read)
+	c13Calls++
+	if c13Calls%2 == 0 && len(flat) <= len(c13Buf) {
+		copy(c13Buf[:], flat)
+		flat = c13Buf[:len(flat):len(flat)]
+		c.Count("inputs_passed_in_a_reused_buffer")
 	}
 	vias := []string{"ConvexHullFlat", "ConvexHull(MultiPoint)", "ConvexHull(LineString)"}
 	c.SetInput(c13Desc(layout, flat, vias[via]))
@@ -104,6 +119,23 @@ func c13Check(c *fw.Ctx, layout geom.Layout, pts []ipt, via int, class string) {
 		c.Fail("input-modified", "the caller's coordinate slice was modified: now %s", fw.Fs(flat))
 		return
 	}
+	defer func() {
+		// the hull belongs to the caller now: moving it must not move the input
+		if res == nil || isNilGeom(res) {
+			return
+		}
+		if c.Guard("panic", func() { geom.TransformInPlace(res, func(co geom.Coord) { co[0] += 1e6; co[1] -= 1e6 }) }) {
+			return
+		}
+		if !model.BitsEq(before, flat) {
+			c.Fail("input-modified", "transforming the returned hull in place changed the caller's coordinate slice: now %s", fw.Fs(flat))
+			return
+		}
+		// the hull stays referenced until the next case: later calls of the library
+		// and the refilling of the input buffer must not change it
+		hr := res
+		holdAndRecheck(c, "c13-hull", "convex hull geometry", func() string { return fmt.Sprint(hr.Layout(), fw.Fs(hr.FlatCoords()), hr.Ends()) })
+	}()
 	ext, distinct, collinear := hullOracle(pts)
 	if res == nil || isNilGeom(res) {
 		c.Fail("nil-hull", "nil result for %d input points", len(pts))
